@@ -326,6 +326,9 @@ func runC10Case(c *fw.Ctx, id string, v refmatch.Variant, w window, pairs bool) 
 	classes := []class{
 		{"fatal", simnet.Fault{Err: fmt.Errorf("socket layer: %w", errInjected)}},
 		{"deadline", simnet.Fault{Err: os.ErrDeadlineExceeded}},
+		// the failing read blocks for 120 ms (longer than a poll interval) before it reports the error: near the end of
+		// the listening window the error surfaces after the run's deadline has passed - it is still a failed read
+		{"fatal-late", simnet.Fault{Err: fmt.Errorf("socket layer (late): %w", errInjected), Stall: 120 * time.Millisecond}},
 		{"zero-length", simnet.Fault{ZeroLen: true}},
 		{"zero-length-persistent", simnet.Fault{ZeroLen: true, Persist: true}},
 	}
@@ -341,7 +344,7 @@ func runC10Case(c *fw.Ctx, id string, v refmatch.Variant, w window, pairs bool) 
 		}
 		for k := 1; k <= n+1; k++ { // n+1: a fault that can never fire must change nothing
 			for _, cl := range classes {
-				if (cl.f.ZeroLen) && op != "read" {
+				if (cl.f.ZeroLen || cl.name == "fatal-late") && op != "read" {
 					continue
 				}
 				h := 0
@@ -374,10 +377,10 @@ func runC10Case(c *fw.Ctx, id string, v refmatch.Variant, w window, pairs bool) 
 			if !sameAsClean {
 				c.Violate("C10", "close-error-changed-result/"+sigBase, tag+": outcome differs from the fault-free run", detail)
 			}
-		case in.cl.name == "fatal" || (in.cl.name == "deadline" && in.key.Op != "read"):
+		case in.cl.name == "fatal" || in.cl.name == "fatal-late" || (in.cl.name == "deadline" && in.key.Op != "read"):
 			if !failed {
 				c.Violate("C10", "fault-swallowed/"+sigBase, fmt.Sprintf("%s: the operation failed but the run returned a result (partial path as success)", tag), detail)
-			} else if in.cl.name == "fatal" && !errors.Is(r.res.Err, errInjected) {
+			} else if in.cl.name != "deadline" && !errors.Is(r.res.Err, errInjected) {
 				c.Violate("C10", "cause-lost/"+sigBase, fmt.Sprintf("%s: returned error does not wrap the underlying cause: %v", tag, r.res.Err), detail)
 			} else if in.cl.name == "deadline" && !errors.Is(r.res.Err, os.ErrDeadlineExceeded) {
 				c.Violate("C10", "cause-lost/"+sigBase, fmt.Sprintf("%s: returned error does not wrap the underlying cause: %v", tag, r.res.Err), detail)
